@@ -288,7 +288,7 @@ extern "C" {
 extern "C" fn on_fatal(sig: i32) {
     let w = worker();
     let w1 = if w < MAX_WORKERS { w as u64 + 1 } else { MAX_WORKERS as u64 + 1 };
-    CRASHED.store(((sig as u64) << 32) | w1, SeqCst);
+    let _ = CRASHED.compare_exchange(0, ((sig as u64) << 32) | w1, SeqCst, SeqCst);
     loop {
         unsafe {
             pause();
@@ -296,15 +296,22 @@ extern "C" fn on_fatal(sig: i32) {
     }
 }
 
-/// SIGABRT only: std's own SIGSEGV handler (on the per-thread alternate stack) recognises a
-/// guard-page hit, prints its message and calls abort(), which lands here, still on that stack.
+/// SIGABRT (failed allocation, panic inside a panic), SIGSEGV and SIGBUS (a guard-page hit: the subject has no
+/// unsafe code, so a fault is a stack overflow). std's own SIGSEGV handler is replaced: it serialises on a lock
+/// and gives up ("deadlock in SIGSEGV handler", then the default action) when several workers overflow at once.
+/// The per-thread alternate signal stacks that std sets up stay in place and SA_ONSTACK puts this handler on them.
+/// The first fault wins the report; every faulting thread is parked.
 #[cfg(all(target_os = "linux", target_arch = "x86_64"))]
 pub fn install_fatal_signal_handler() {
     const SIGABRT: i32 = 6;
+    const SIGBUS: i32 = 7;
+    const SIGSEGV: i32 = 11;
     const SA_ONSTACK: i32 = 0x0800_0000;
     let act = KSigaction { handler: on_fatal as extern "C" fn(i32) as usize, mask: [0; 16], flags: SA_ONSTACK, restorer: 0 };
     unsafe {
         sigaction(SIGABRT, &act, std::ptr::null_mut());
+        sigaction(SIGSEGV, &act, std::ptr::null_mut());
+        sigaction(SIGBUS, &act, std::ptr::null_mut());
     }
 }
 #[cfg(not(all(target_os = "linux", target_arch = "x86_64")))]
